@@ -62,7 +62,7 @@ func init() {
 			var api []Case
 			for _, d := range []string{"{ max $cap kept max $cap to @d remaining to @e }", "{ max $cap to @d max $cap kept remaining to @e }", "{ max $cap kept remaining to @d }",
 				"{ max $cap to { max $cap to @a remaining kept } remaining to @d }", "{ 1/2 kept 1/2 to @d }", "{ max $cap to @d max $cap to @e max $cap kept remaining kept }"} {
-				for _, src := range []string{"{ @a @b }", "{ @a @b @c }", "{ max $cap from @a @b }", "{ @a @world }"} {
+				for _, src := range []string{"{ @a @b }", "{ @a @b @c }", "{ max $cap from @a @b }", "{ @a @world }", "{ max $cap from @a @b @a }"} {
 					api = append(api, apiCase("C07", "api-kept-and-shared-caps", []string{sendFixed("USD", src, d)}, capv))
 				}
 				api = append(api, apiCase("C07", "api-kept-and-shared-caps", []string{sendAll("USD", "{ @a @b }", d)}, capv))
@@ -71,6 +71,12 @@ func init() {
 				api = thinCases(api, 2)
 			}
 			// every destination shape of the generator (kept in every position, allotments, nested blocks) fed by several sources
+			// the same account drawn twice with another account in between, two or three shares
+			for _, d := range []string{"{ max %C to @d remaining to @e }", "{ 1/2 to @d 1/2 to @e }", "{ max %C to @d max %C kept remaining to @e }", "{ max %C to @d max %C to @e remaining to @d }"} {
+				for _, src := range []string{"{ max %C from @a @b @a }", "{ @a allowing overdraft up to %K @b @a allowing overdraft up to %K }", "{ 1/3 from @a 1/3 from @b remaining from @a }"} {
+					api = append(api, apiCase("C07", "api-repeated-source-around-another", []string{sendFixed("USD", src, d)}, nil))
+				}
+			}
 			for _, d := range dstTrees(2, true, true, true) {
 				api = append(api, apiCase("C07", "api-destinations-x-several-sources", []string{sendFixed("USD", "{ @a @b }", d)}, nil))
 				if tier == "thorough" {
